@@ -56,6 +56,10 @@ class C17(Check):
             for b in list(strings(A, 2)):
                 yield "replacea 1 %s %s" % (hx(a), hx(b)), "replace-alias"
                 yield "replacea 2 %s %s" % (hx(a), hx(b)), "replace-alias"
+        # ranges of characters (std::string iterators, vector<unsigned char>, const char*): elements are characters
+        for t in list(strings("a1 ", 3)) + ["abc", "0129", "\x00a", "\xffz"]:
+            for i in ["", ",", "--"]:
+                yield "joinc %s %s" % (hx(i), hx(t)), "join-char-ranges"
         # the default infix (one blank) of both join overloads
         for n in range(0, 4):
             for l in itertools.product(["", "a", "b ", " "], repeat=n):
@@ -168,6 +172,8 @@ class C17(Check):
             return w[2] != "-"
         if w[0] == "replacea":
             return w[2] != "-"
+        if w[0] == "joinc":
+            return len(w[2]) > 2
         if w[0] == "joind":
             return "," in w[1]
         if w[0] == "joinn":
